@@ -820,6 +820,188 @@ fn variants_for(w: &str) -> Vec<(&'static str, Vec<&'static str>)> {
     v
 }
 
+
+// ---------------------------------------------------------------------------------------------------------
+// USER-DEFINED value types (srad_types::traits::{HasDataType, MetricValue, ParameterValue} implemented outside
+// the library): a type may support several datatypes and name ANY of them as its default. C10's last sentence
+// for them: the datatype the library declares for a value of the type - bare or wrapped in `Option` - is the
+// one the type names, and decoding the value by that declaration yields the variant of that name holding the
+// same value. The expected datatype is the constant written in the type's definition below.
+macro_rules! user_type {
+    ($name:ident, $inner:ty, $mv:ident, $pv:ident, [$($sup:ident),+], $def:ident) => {
+        #[derive(Clone, Debug, PartialEq)]
+        pub struct $name(pub $inner);
+        impl srad_types::traits::HasDataType for $name {
+            fn supported_datatypes() -> &'static [DataType] {
+                static S: &[DataType] = &[$(DataType::$sup),+];
+                S
+            }
+            fn default_datatype() -> DataType {
+                DataType::$def
+            }
+        }
+        impl From<$name> for MetricValue {
+            fn from(v: $name) -> Self {
+                MetricValue(metric::Value::$mv(v.0))
+            }
+        }
+        impl TryFrom<MetricValue> for $name {
+            type Error = ();
+            fn try_from(v: MetricValue) -> Result<Self, ()> {
+                match v.0 {
+                    metric::Value::$mv(x) => Ok($name(x)),
+                    _ => Err(()),
+                }
+            }
+        }
+        impl srad_types::traits::MetricValue for $name {}
+        user_type!(@param $name, $pv);
+    };
+    (@param $name:ident, none) => {};
+    (@param $name:ident, $pv:ident) => {
+        impl From<$name> for ParameterValue {
+            fn from(v: $name) -> Self {
+                ParameterValue(parameter::Value::$pv(v.0))
+            }
+        }
+        impl TryFrom<ParameterValue> for $name {
+            type Error = ();
+            fn try_from(v: ParameterValue) -> Result<Self, ()> {
+                match v.0 {
+                    parameter::Value::$pv(x) => Ok($name(x)),
+                    _ => Err(()),
+                }
+            }
+        }
+        impl srad_types::traits::ParameterValue for $name {}
+    };
+}
+user_type!(UtBytesFirst, Vec<u8>, BytesValue, none, [Bytes, File], Bytes);
+user_type!(UtFileSecond, Vec<u8>, BytesValue, none, [Bytes, File], File);
+user_type!(UtFileFirst, Vec<u8>, BytesValue, none, [File, Bytes], File);
+user_type!(UtTextSecond, String, StringValue, StringValue, [String, Text, Uuid], Text);
+user_type!(UtUuidLast, String, StringValue, StringValue, [String, Text, Uuid], Uuid);
+user_type!(UtStringFirst, String, StringValue, StringValue, [String, Text], String);
+
+/// (type token, wire code its definition names as default, position of the default among the supported datatypes)
+pub const USER_TYPES: [(&str, u32, &str); 6] = [
+    ("bytes-first", 17, "default-is-first-supported"),
+    ("file-second", 18, "default-is-not-first-supported"),
+    ("file-first", 18, "default-is-first-supported"),
+    ("text-second", 14, "default-is-not-first-supported"),
+    ("uuid-last", 15, "default-is-not-first-supported"),
+    ("string-first", 12, "default-is-first-supported"),
+];
+pub const USER_WRAPS: [&str; 6] = ["tm-bare", "tm-some", "tm-none", "tp-bare", "tp-some", "tp-none"];
+
+/// what the library declares (and writes) for a value of a user type: (declared datatype code, value as (variant, field))
+fn user_type_encode(ut: &str, wrap: &str, h: &str) -> Option<(Option<u32>, Option<(String, String)>)> {
+    use srad_types::{TemplateMetric, TemplateParameter};
+    fn mshow(m: TemplateMetric) -> (Option<u32>, Option<(String, String)>) {
+        let v = match m.value {
+            Some(metric::Value::BytesValue(b)) => Some(("bytes".to_string(), hex(&b))),
+            Some(metric::Value::StringValue(s)) => Some(("str".to_string(), hex(s.as_bytes()))),
+            Some(_) => Some(("other".to_string(), "-".to_string())),
+            None => None,
+        };
+        (m.datatype, v)
+    }
+    fn pshow(m: TemplateParameter) -> (Option<u32>, Option<(String, String)>) {
+        let v = match m.value {
+            Some(parameter::Value::StringValue(s)) => Some(("str".to_string(), hex(s.as_bytes()))),
+            Some(_) => Some(("other".to_string(), "-".to_string())),
+            None => None,
+        };
+        (m.r#type, v)
+    }
+    macro_rules! go {
+        ($t:ident, $v:expr, param) => {
+            match wrap {
+                "tm-bare" => Some(mshow(TemplateMetric::new_template_metric("u".into(), $t($v)))),
+                "tm-some" => Some(mshow(TemplateMetric::new_template_metric("u".into(), Some($t($v))))),
+                "tm-none" => Some(mshow(TemplateMetric::new_template_metric("u".into(), None::<$t>))),
+                "tp-bare" => Some(pshow(TemplateParameter::new_template_parameter("u".into(), $t($v)))),
+                "tp-some" => Some(pshow(TemplateParameter::new_template_parameter("u".into(), Some($t($v))))),
+                "tp-none" => Some(pshow(TemplateParameter::new_template_parameter("u".into(), None::<$t>))),
+                _ => None,
+            }
+        };
+        ($t:ident, $v:expr, noparam) => {
+            match wrap {
+                "tm-bare" => Some(mshow(TemplateMetric::new_template_metric("u".into(), $t($v)))),
+                "tm-some" => Some(mshow(TemplateMetric::new_template_metric("u".into(), Some($t($v))))),
+                "tm-none" => Some(mshow(TemplateMetric::new_template_metric("u".into(), None::<$t>))),
+                _ => None,
+            }
+        };
+    }
+    match ut {
+        "bytes-first" => go!(UtBytesFirst, unhex(h), noparam),
+        "file-second" => go!(UtFileSecond, unhex(h), noparam),
+        "file-first" => go!(UtFileFirst, unhex(h), noparam),
+        "text-second" => go!(UtTextSecond, utf8(h), param),
+        "uuid-last" => go!(UtUuidLast, utf8(h), param),
+        "string-first" => go!(UtStringFirst, utf8(h), param),
+        _ => None,
+    }
+}
+
+/// one user type x one way of handing a value of it to the library (descriptor `ut <type> <wrap> <hex>`)
+fn user_type_case(out: &mut Out, ut: &str, wrap: &str, h: &str, stat: &str) {
+    out.begin_case("codec new", "ok");
+    out.set_desc(format!("ut {} {} {}", ut, wrap, h));
+    out.count(stat);
+    out.nontrivial();
+    let Some(&(_, want_code, pos)) = USER_TYPES.iter().find(|(t, _, _)| *t == ut) else { return };
+    let (ut2, wrap2, h2) = (ut.to_string(), wrap.to_string(), h.to_string());
+    let enc = match catch(move || user_type_encode(&ut2, &wrap2, &h2)) {
+        Err(m) => {
+            out.fail("C10:user-type-declared-and-decoded", "panic", format!("ut {} {} {}: panicked: {}", ut, wrap, h, m));
+            return;
+        }
+        Ok(None) => return, // this type has no parameter form
+        Ok(Some(e)) => e,
+    };
+    let want_name = SPEC_DT_NAMES[want_code as usize];
+    let feature = format!("{}-{}-{}", if wrap.ends_with("bare") { "bare" } else { "wrapped-in-option" }, pos, want_name);
+    let (declared, value) = enc;
+    if declared != Some(want_code) {
+        out.fail(
+            "C10:user-type-declared-and-decoded",
+            &feature,
+            format!("ut {} {} {}: a user type whose default datatype is {} ({}) is declared as {:?}", ut, wrap, h, want_code, want_name, declared),
+        );
+    }
+    let absent = wrap.ends_with("none");
+    match (&value, absent) {
+        (None, true) => {}
+        (Some((variant, field)), false) => {
+            let want_variant = if want_code == 17 || want_code == 18 { "bytes" } else { "str" };
+            if variant != want_variant || field != h {
+                out.fail("C10:user-type-declared-and-decoded", &feature, format!("ut {} {} {}: the value written is {} {}", ut, wrap, h, variant, field));
+            } else if wrap.starts_with("tm") {
+                // decode by the datatype the LIBRARY declared (an existing request form: the model answers it too)
+                if let Some(code) = declared.filter(|c| *c < 35) {
+                    let op = format!("codec kind {} {} {}", code, variant, field);
+                    let a = line(out, &op);
+                    let want = format!("ok {} {}", want_name, if want_variant == "bytes" { format!("raw:{}", h) } else { hex(utf8(h).as_bytes()) });
+                    let got_name = a.split(' ').nth(1).unwrap_or("");
+                    if !(a.starts_with("ok ") && got_name == want_name) {
+                        out.fail(
+                            "C10:user-type-declared-and-decoded",
+                            &feature,
+                            format!("ut {} {} {}: decoding the value by its declared datatype ({}) gave `{}`, the type names {}", ut, wrap, h, code, a, want_name),
+                        );
+                    } else if want_variant == "bytes" && a != want {
+                        out.fail("C10:user-type-declared-and-decoded", &feature, format!("ut {} {} {}: decoded `{}`, expected `{}`", ut, wrap, h, a, want));
+                    }
+                }
+            }
+        }
+        _ => out.fail("C10:user-type-declared-and-decoded", &feature, format!("ut {} {} {}: value presence {:?}", ut, wrap, h, value)),
+    }
+}
+
 pub const RULE: &str = "scalars: every value of the 8-bit types and (quick: every 7th, thorough: every) value of the 16-bit types x 4 wrapper kinds, boundary/special/random bit patterns of the wider types incl. NaN payloads, infinities, subnormals; wrapper->type decode of every variant x boundary field for all 13 types x 4 wrappers (exhaustive table); arrays: every length 0..=64 per element type with random contents, every boolean list up to length Lb (exhaustive), random long arrays; array decoders: every byte string of length <= Le (exhaustive) into all 13 decoders, plus all strings of length <= 6 over {00,01,07,08,09,80,FF}-style alphabets (thorough), structured boolean-array inputs (count x data length), random/mutated inputs with counts larger/smaller than the data and trailing bytes; datatype-directed decoding: all 35 datatypes x every variant sample (exhaustive table) plus valid encodings; DataSet metric values of any structure (declared column counts 0..u64::MAX x 0..=3 actual columns, unknown type codes, inconsistent rows; direct oracles: no panic, no abort, allocation bound). Non-trivial = the op sequence contains a non-empty value; distinct = distinct op lines (hashed).";
 
 /// structure-aware DataSet messages: declared column counts from 0 to u64::MAX against 0..4 actual columns,
@@ -1098,6 +1280,25 @@ pub fn run(args: &Args, out: &mut Out) -> &'static str {
         };
         case(out, &[op], true, "kind-random");
     }
+    // --- user-defined value types: declared datatype and datatype-directed decoding, bare and wrapped in Option ---
+    for (ut, code, _) in USER_TYPES {
+        for wrap in USER_WRAPS {
+            let mut vals: Vec<String> = vec!["-".into()];
+            for _ in 0..(if th { 40 } else { 6 }) {
+                vals.push(if code == 17 || code == 18 {
+                    let n = rng.below(40) as usize;
+                    hex(&(0..n).map(|_| rng.next() as u8).collect::<Vec<u8>>())
+                } else {
+                    hex(random_string(&mut rng, false).as_bytes())
+                });
+            }
+            for v in vals {
+                user_type_case(out, ut, wrap, &v, "user-type");
+                out.count(&format!("user-type:{}:{}", ut, wrap));
+            }
+        }
+    }
+    out.exhaustive.push("user-defined value types: 6 types (default datatype first / not first among the supported) x bare / Some / None x template metric / template parameter".into());
     // --- DataSet metric values of any structure (own PRNG stream: the cases above keep theirs) ---
     let mut drng = Rng::new(args.seed ^ 0xD5D5);
     let ops = dataset_cases(&mut drng, if th { 20000 } else { 1500 });
@@ -1110,6 +1311,13 @@ pub fn run(args: &Args, out: &mut Out) -> &'static str {
 }
 
 pub fn replay(desc: &str, lines: &[String], out: &mut Out) {
+    if let Some(rest) = desc.strip_prefix("ut ") {
+        let t: Vec<&str> = rest.split(' ').collect();
+        if t.len() == 3 {
+            user_type_case(out, t[0], t[1], t[2], "replay");
+        }
+        return;
+    }
     if let Some(rest) = desc.strip_prefix("rt ") {
         let mut it = rest.split(' ');
         let el = it.next().unwrap().to_string();
